@@ -1,8 +1,478 @@
-import RaptorModel.Model.Tap
-namespace Raptor.C04
-open Raptor.Tap
+import RaptorModel.Lemmas.TapLemmas
+import RaptorModel.Props.C03
+/-!
+# C04 — the node-aware exchange is pure data movement and agrees with the standard exchange
 
-theorem scatter_nil {α : Type} (buf : List (Option α)) (vals : List α) : scatter buf [] vals = buf := by
-  simp [scatter]
+Theorems about the very functions of `RaptorModel/Model/Tap.lean` (`subMsg`, `subExchange`,
+`subExchangeAll`, `scatter`, `tapForward`, `subConsistent`, `ids`, `certificate`), for every
+package `T` (any number of ranks, any sub-packages — even inconsistent ones), every payload type.
+
+* every stage (`subMsg`, `subExchange`, `subExchangeAll`, `scatter`) and the whole three-step /
+  two-step pipeline `tapForward` is natural in the payload: it commutes with `map f` for every `f`
+  (sections 1-3, no hypotheses at all);
+* hence a package that routes the identity payload to `off r` routes every payload that is given
+  by values attached to global indices to the values of `off r` (section 4);
+* hence `certificate fc off T = true` (a decidable check run on the packages dumped from the real
+  code) implies that `T` delivers every payload (section 5) and agrees, rank by rank and slot by
+  slot, with the standard exchange of C03 and with its specification `haloSpec` (section 6);
+* block payloads and sparse rows are instances (section 7);
+* consistency of a sub-package fixes the size of every receive buffer; `tapForward` always has
+  size `recv_size`; the certificate forces `recv_size r = |off r|` (section 8);
+* section 9: the default value. `tapForward d` reads `d` when a send index is out of range; the
+  certificate is evaluated with `d = 0`, which is also the global index 0, so the theorems above are
+  stated with the default `v 0`. A check with the identity payload shifted by one (`routesShifted`)
+  excludes any use of the default, and then the result holds for every default `d`.
+
+Helper lemmas are in `RaptorModel/Lemmas/TapLemmas.lean`.
+-/
+namespace Raptor.C04
+open Raptor.Comm Raptor.Tap
+
+variable {α β : Type}
+
+/-! ## 1. the sub-package exchange is natural in the payload -/
+
+section SubNatural
+
+theorem subMsg_natural (f : α → β) (d : α) (pk : List SubPkg) (vals : List (List α)) (p r : Nat) :
+    subMsg (f d) pk (vals.map (List.map f)) p r = (subMsg d pk vals p r).map f :=
+  subMsg_natural_aux f d pk vals p r
+
+theorem subExchange_natural (f : α → β) (d : α) (pk : List SubPkg) (vals : List (List α)) (r : Nat) :
+    subExchange (f d) pk (vals.map (List.map f)) r = (subExchange d pk vals r).map f :=
+  subExchange_natural_aux f d pk vals r
+
+theorem subExchangeAll_natural (f : α → β) (d : α) (np : Nat) (pk : List SubPkg) (vals : List (List α)) :
+    subExchangeAll (f d) np pk (vals.map (List.map f)) = (subExchangeAll d np pk vals).map (List.map f) :=
+  subExchangeAll_natural_aux f d np pk vals
+
+end SubNatural
+
+/-! ## 2. `scatter` is natural -/
+
+section Scatter
+
+theorem scatter_natural (f : α → β) (buf : List (Option α)) (idx : List Nat) (vals : List α) :
+    scatter (buf.map (Option.map f)) idx (vals.map f) = (scatter buf idx vals).map (Option.map f) :=
+  scatter_natural_aux f idx buf vals
+
+theorem scatter_preserves_length (buf : List (Option α)) (idx : List Nat) (vals : List α) :
+    (scatter buf idx vals).length = buf.length :=
+  scatter_length idx buf vals
+
+/-- a position that is not a target keeps its content -/
+theorem scatter_untouched (buf : List (Option α)) (idx : List Nat) (vals : List α) (j : Nat)
+    (hj : j ∉ idx) : (scatter buf idx vals)[j]? = buf[j]? :=
+  scatter_getElem?_of_not_mem idx j hj buf vals
+
+end Scatter
+
+/-! ## 3. the whole node-aware exchange is natural — no hypotheses -/
+
+section Forward
+
+/-- **`L ∥ (S → G → R)` followed by the two scatters commutes with every map of the payload** -/
+theorem tapForward_natural (f : α → β) (d : α) (T : TapPkg) (x : List (List α)) (r : Nat) :
+    tapForward (f d) T (x.map (List.map f)) r = (tapForward d T x r).map (Option.map f) :=
+  tapForward_natural_aux f d T x r
+
+theorem tapForward_length (d : α) (T : TapPkg) (x : List (List α)) (r : Nat) :
+    (tapForward d T x r).length = T.recvSize.getD r 0 :=
+  tapForward_length_aux d T x r
+
+end Forward
+
+/-! ## 4. a package that routes the identity payload routes every payload -/
+
+section Routes
+
+/-- general form: whatever the tagged payload `idx` and the expected tags `want` are -/
+theorem tap_routes_of_tags_routed (v : Nat → α) (d0 : Nat) (T : TapPkg) (idx : List (List Nat))
+    (want : List Nat) (r : Nat) (hid : tapForward d0 T idx r = want.map some) :
+    tapForward (v d0) T (idx.map (List.map v)) r = want.map (fun c => some (v c)) := by
+  rw [tapForward_natural, hid, List.map_map]
+  rfl
+
+/-- **if the indices arrive as `off r`, then values `v` attached to the indices arrive as
+    `(off r).map v`** (hypothesis = the certificate's routing clause for rank `r`) -/
+theorem tap_routes_every_payload (v : Nat → α) (fc : List Nat) (off : List (List Nat)) (T : TapPkg)
+    (r : Nat) (hid : tapForward 0 T (ids fc T.np) r = (off.getD r []).map some) :
+    tapForward (v 0) T ((ids fc T.np).map (List.map v)) r = (off.getD r []).map (fun c => some (v c)) :=
+  tap_routes_of_tags_routed v 0 T (ids fc T.np) (off.getD r []) r hid
+
+end Routes
+
+/-! ## 5. soundness of the certificate -/
+
+section Certificate
+
+/-- the five clauses of the certificate -/
+theorem certificate_iff (fc : List Nat) (off : List (List Nat)) (T : TapPkg) :
+    certificate fc off T = true ↔
+      subConsistent T.np T.L = true ∧ (T.hasS = true → subConsistent T.np T.S = true) ∧
+      subConsistent T.np T.G = true ∧ subConsistent T.np T.R = true ∧
+      ∀ r, r < T.np → tapForward 0 T (ids fc T.np) r = (off.getD r []).map some := by
+  unfold certificate
+  simp only [Bool.and_eq_true, Bool.or_eq_true, Bool.not_eq_true', List.all_eq_true, List.mem_range,
+    beq_iff_eq]
+  constructor
+  · rintro ⟨⟨⟨⟨h1, h2⟩, h3⟩, h4⟩, h5⟩
+    refine ⟨h1, ?_, h3, h4, h5⟩
+    intro hS
+    rcases h2 with h2 | h2
+    · rw [hS] at h2; cases h2
+    · exact h2
+  · rintro ⟨h1, h2, h3, h4, h5⟩
+    refine ⟨⟨⟨⟨h1, ?_⟩, h3⟩, h4⟩, h5⟩
+    cases hS : T.hasS with
+    | false => exact Or.inl rfl
+    | true => exact Or.inr (h2 hS)
+
+theorem certificate_routes {fc : List Nat} {off : List (List Nat)} {T : TapPkg}
+    (hc : certificate fc off T = true) {r : Nat} (hr : r < T.np) :
+    tapForward 0 T (ids fc T.np) r = (off.getD r []).map some :=
+  ((certificate_iff fc off T).1 hc).2.2.2.2 r hr
+
+/-- **a certified package delivers every payload**: slot `j` of rank `r` holds the value of the
+    global index `off r j` -/
+theorem certificate_sound {fc : List Nat} {off : List (List Nat)} {T : TapPkg}
+    (hc : certificate fc off T = true) (r : Nat) (hr : r < T.np) (v : Nat → α) :
+    tapForward (v 0) T ((ids fc T.np).map (List.map v)) r = (off.getD r []).map (fun c => some (v c)) :=
+  tap_routes_every_payload v fc off T r (certificate_routes hc hr)
+
+/-- every slot of the final buffer is written -/
+theorem certificate_all_written {fc : List Nat} {off : List (List Nat)} {T : TapPkg}
+    (hc : certificate fc off T = true) (r : Nat) (hr : r < T.np) (v : Nat → α) :
+    ∀ o ∈ tapForward (v 0) T ((ids fc T.np).map (List.map v)) r, o ≠ none := by
+  rw [certificate_sound hc r hr v]
+  intro o ho
+  rw [List.mem_map] at ho
+  obtain ⟨c, _, rfl⟩ := ho
+  exact Option.some_ne_none _
+
+/-- the announced size of the final buffer is the number of off-process columns -/
+theorem certificate_recvSize {fc : List Nat} {off : List (List Nat)} {T : TapPkg}
+    (hc : certificate fc off T = true) (r : Nat) (hr : r < T.np) :
+    T.recvSize.getD r 0 = (off.getD r []).length := by
+  rw [← tapForward_length 0 T (ids fc T.np) r, certificate_routes hc hr, List.length_map]
+
+end Certificate
+
+/-! ## 6. agreement with the standard exchange of C03 -/
+
+section Standard
+variable {fc : List Nat} {np : Nat}
+
+/-- the identity payloads of C03 and C04 are the same -/
+theorem ids_eq_globalIdx (fc : List Nat) (np : Nat) : ids fc np = globalIdx fc np :=
+  Raptor.Tap.ids_eq_globalIdx fc np
+
+/-- the standard exchange routes a payload of values attached to global indices -/
+theorem standard_routes (h : FcOk fc np) (off : List (List Nat)) (v : Nat → α) (r : Nat)
+    (hs : (off.getD r []).Pairwise (· ≤ ·)) (hb : ∀ c ∈ off.getD r [], c < fc.getD np 0) :
+    exchange (v 0) fc off ((ids fc np).map (List.map v)) r = (off.getD r []).map v := by
+  apply Raptor.C03.exchange_of_identity_routed v 0 fc off (ids fc np) r
+  rw [ids_eq_globalIdx]
+  exact Raptor.C03.exchange_identity h 0 off r hs hb
+
+/-- **a certified node-aware package and the standard package deliver the same buffer**, for every
+    payload given by values of global indices -/
+theorem tap_eq_standard (h : FcOk fc np) (off : List (List Nat)) (T : TapPkg) (hT : T.np = np)
+    (hc : certificate fc off T = true) (v : Nat → α) (r : Nat) (hr : r < np)
+    (hs : (off.getD r []).Pairwise (· ≤ ·)) (hb : ∀ c ∈ off.getD r [], c < fc.getD np 0) :
+    tapForward (v 0) T ((ids fc np).map (List.map v)) r
+      = (exchange (v 0) fc off ((ids fc np).map (List.map v)) r).map some := by
+  subst hT
+  rw [certificate_sound hc r hr v, standard_routes h off v r hs hb, List.map_map]
+  rfl
+
+/-- the value a distributed payload `x` attaches to the global index `c` -/
+abbrev valOf (d : α) (fc : List Nat) (x : List (List α)) (c : Nat) : α := Raptor.Tap.valOf d fc x c
+
+/-- every payload of the right shape is given by values of global indices -/
+theorem payload_is_indexed (h : FcOk fc np) (d : α) (x : List (List α)) (hx : x.length = np)
+    (hxl : ∀ p, p < np → (x.getD p []).length = fc.getD (p+1) 0 - fc.getD p 0) :
+    x = (ids fc np).map (List.map (valOf d fc x)) :=
+  (payload_eq_ids_map h d x hx hxl).symm
+
+/-- a certified package satisfies the specification of the halo exchange for an arbitrary payload
+    of the right shape (the default is `x`'s value at global index 0, see section 9) -/
+theorem tap_delivers_spec (h : FcOk fc np) (off : List (List Nat)) (T : TapPkg) (hT : T.np = np)
+    (hc : certificate fc off T = true) (d : α) (x : List (List α)) (hx : x.length = np)
+    (hxl : ∀ p, p < np → (x.getD p []).length = fc.getD (p+1) 0 - fc.getD p 0)
+    (r : Nat) (hr : r < np) :
+    tapForward (valOf d fc x 0) T x r = (haloSpec d fc off x r).map some := by
+  subst hT
+  have := certificate_sound hc r hr (valOf d fc x)
+  rw [payload_eq_ids_map h d x hx hxl] at this
+  rw [this, haloSpec_eq_map_valOf, List.map_map]
+  rfl
+
+/-- **the same for an arbitrary payload `x` of the right shape**: certified node-aware exchange =
+    standard exchange -/
+theorem tap_eq_standard_general (h : FcOk fc np) (off : List (List Nat)) (T : TapPkg) (hT : T.np = np)
+    (hc : certificate fc off T = true) (d : α) (x : List (List α)) (hx : x.length = np)
+    (hxl : ∀ p, p < np → (x.getD p []).length = fc.getD (p+1) 0 - fc.getD p 0)
+    (r : Nat) (hr : r < np)
+    (hs : (off.getD r []).Pairwise (· ≤ ·)) (hb : ∀ c ∈ off.getD r [], c < fc.getD np 0) :
+    tapForward (valOf d fc x 0) T x r = (exchange d fc off x r).map some := by
+  rw [tap_delivers_spec h off T hT hc d x hx hxl r hr, Raptor.C03.exchange_delivers h d off x r hs hb]
+
+/-- when global index 0 exists its value is `x[0][0]`, whatever `d` -/
+theorem valOf_zero (h : FcOk fc np) (d : α) (x : List (List α)) (hnp : 0 < np) (h1 : 0 < fc.getD 1 0) :
+    valOf d fc x 0 = (x.getD 0 []).getD 0 d := by
+  have ho : 0 = owner fc 0 := Raptor.C03.owner_unique h hnp (Nat.le_of_eq h.zero) h1
+  unfold valOf Raptor.Tap.valOf
+  rw [← ho, Nat.zero_sub]
+
+end Standard
+
+/-! ## 7. blocks and sparse rows are instances -/
+
+section Rows
+
+/-- sparse rows (lists of `(column, value)`), as communicated by `communicate(ParCSRMatrix)` -/
+theorem tap_routes_rows {K : Type} (rows : Nat → List (Nat × K)) {fc : List Nat}
+    {off : List (List Nat)} {T : TapPkg} (hc : certificate fc off T = true) (r : Nat) (hr : r < T.np) :
+    tapForward (rows 0) T ((ids fc T.np).map (List.map rows)) r
+      = (off.getD r []).map (fun c => some (rows c)) :=
+  certificate_sound hc r hr rows
+
+/-- block vectors (`b` values per index) -/
+theorem tap_routes_blocks {K : Type} (blk : Nat → List K) {fc : List Nat}
+    {off : List (List Nat)} {T : TapPkg} (hc : certificate fc off T = true) (r : Nat) (hr : r < T.np) :
+    tapForward (blk 0) T ((ids fc T.np).map (List.map blk)) r
+      = (off.getD r []).map (fun c => some (blk c)) :=
+  certificate_sound hc r hr blk
+
+/-- post-processing the received rows (e.g. renumbering their columns) can be done before sending -/
+theorem tap_rows_postprocess {K : Type} (g : List (Nat × K) → List (Nat × K)) (d : List (Nat × K))
+    (T : TapPkg) (x : List (List (List (Nat × K)))) (r : Nat) :
+    (tapForward d T x r).map (Option.map g) = tapForward (g d) T (x.map (List.map g)) r :=
+  (tapForward_natural g d T x r).symm
+
+end Rows
+
+/-! ## 8. consistency fixes the buffer sizes -/
+
+section Consistent
+
+theorem subConsistent_recv_matched {np : Nat} {pk : List SubPkg} (hc : subConsistent np pk = true)
+    {r : Nat} (hr : r < np) :
+    ∀ m ∈ (pk.getD r default).recv,
+      ∃ s, (pk.getD m.1 default).send.find? (fun s => s.1 == r) = some s ∧ s.2.length = m.2 :=
+  subConsistent_recv hc hr
+
+theorem subMsg_length {np : Nat} {pk : List SubPkg} (hc : subConsistent np pk = true)
+    (d : α) (vals : List (List α)) {r : Nat} (hr : r < np) :
+    ∀ m ∈ (pk.getD r default).recv, (subMsg d pk vals m.1 r).length = m.2 := by
+  intro m hm
+  obtain ⟨s, hf, hl⟩ := subConsistent_recv hc hr m hm
+  rw [subMsg_length_of_find hf, hl]
+
+/-- the receive buffer of a consistent sub-package has the announced size, whatever is sent -/
+theorem subExchange_length {np : Nat} {pk : List SubPkg} (hc : subConsistent np pk = true)
+    (d : α) (vals : List (List α)) {r : Nat} (hr : r < np) :
+    (subExchange d pk vals r).length = ((pk.getD r default).recv.map (·.2)).sum :=
+  subExchange_length_aux d vals hc hr
+
+theorem subExchangeAll_length (d : α) (np : Nat) (pk : List SubPkg) (vals : List (List α)) :
+    (subExchangeAll d np pk vals).length = np := by
+  unfold subExchangeAll
+  rw [List.length_map, List.length_range]
+
+end Consistent
+
+/-! ## 9. the default value -/
+
+section Default
+
+
+/-- extend `v` by a value for tag 0 -/
+def shiftVal (d : α) (v : Nat → α) : Nat → α
+  | 0 => d
+  | c + 1 => v c
+
+/-- if the shifted identity payload is routed, every payload is routed **for every default** -/
+theorem tap_routes_any_default (fc : List Nat) (off : List (List Nat)) (T : TapPkg) (r : Nat)
+    (hid : tapForward 0 T ((ids fc T.np).map (List.map (· + 1))) r
+      = (off.getD r []).map (fun c => some (c + 1)))
+    (d : α) (v : Nat → α) :
+    tapForward d T ((ids fc T.np).map (List.map v)) r = (off.getD r []).map (fun c => some (v c)) := by
+  have hn := tapForward_natural (shiftVal d v) 0 T ((ids fc T.np).map (List.map (· + 1))) r
+  rw [hid, List.map_map, List.map_map] at hn
+  have e : (List.map (shiftVal d v) ∘ List.map (· + 1)) = List.map v := by
+    funext l
+    simp only [Function.comp_apply, List.map_map]
+    rfl
+  rw [e] at hn
+  exact hn
+
+theorem routesShifted_sound {fc : List Nat} {off : List (List Nat)} {T : TapPkg}
+    (hc : routesShifted fc off T = true) (r : Nat) (hr : r < T.np) (d : α) (v : Nat → α) :
+    tapForward d T ((ids fc T.np).map (List.map v)) r = (off.getD r []).map (fun c => some (v c)) := by
+  unfold routesShifted at hc
+  rw [List.all_eq_true] at hc
+  have := hc r (List.mem_range.2 hr)
+  rw [beq_iff_eq] at this
+  exact tap_routes_any_default fc off T r this d v
+
+/-- the shifted check implies the routing clause of the certificate -/
+theorem routesShifted_routes {fc : List Nat} {off : List (List Nat)} {T : TapPkg}
+    (hc : routesShifted fc off T = true) (r : Nat) (hr : r < T.np) :
+    tapForward 0 T (ids fc T.np) r = (off.getD r []).map some := by
+  have := routesShifted_sound hc r hr 0 id
+  simp only [List.map_id_fun, id_eq] at this
+  exact this
+
+/-- with the shifted check, the result does not depend on the default -/
+theorem tap_default_irrelevant {fc : List Nat} {off : List (List Nat)} {T : TapPkg}
+    (hc : routesShifted fc off T = true) (r : Nat) (hr : r < T.np) (d d' : α) (v : Nat → α) :
+    tapForward d T ((ids fc T.np).map (List.map v)) r
+      = tapForward d' T ((ids fc T.np).map (List.map v)) r := by
+  rw [routesShifted_sound hc r hr d v, routesShifted_sound hc r hr d' v]
+
+/-- with the shifted check a package satisfies the specification for an arbitrary payload of the
+    right shape and an arbitrary default on either side -/
+theorem tap_delivers_spec_any_default {fc : List Nat} {np : Nat} (h : FcOk fc np)
+    (off : List (List Nat)) (T : TapPkg) (hT : T.np = np) (hc : routesShifted fc off T = true)
+    (d d' : α) (x : List (List α)) (hx : x.length = np)
+    (hxl : ∀ p, p < np → (x.getD p []).length = fc.getD (p+1) 0 - fc.getD p 0)
+    (r : Nat) (hr : r < np) :
+    tapForward d' T x r = (haloSpec d fc off x r).map some := by
+  subst hT
+  have := routesShifted_sound hc r hr d' (valOf d fc x)
+  rw [payload_eq_ids_map h d x hx hxl] at this
+  rw [this, haloSpec_eq_map_valOf, List.map_map]
+  rfl
+
+/-- … and agrees with the standard exchange -/
+theorem tap_eq_standard_any_default {fc : List Nat} {np : Nat} (h : FcOk fc np)
+    (off : List (List Nat)) (T : TapPkg) (hT : T.np = np) (hc : routesShifted fc off T = true)
+    (d d' : α) (x : List (List α)) (hx : x.length = np)
+    (hxl : ∀ p, p < np → (x.getD p []).length = fc.getD (p+1) 0 - fc.getD p 0)
+    (r : Nat) (hr : r < np)
+    (hs : (off.getD r []).Pairwise (· ≤ ·)) (hb : ∀ c ∈ off.getD r [], c < fc.getD np 0) :
+    tapForward d' T x r = (exchange d fc off x r).map some := by
+  rw [tap_delivers_spec_any_default h off T hT hc d d' x hx hxl r hr,
+    Raptor.C03.exchange_delivers h d off x r hs hb]
+
+end Default
+
+/-! ## concrete instance: 4 ranks on 2 nodes (ranks 0,1 on node 0; ranks 2,3 on node 1) -/
+
+section Examples
+
+/-- every rank owns two indices -/
+def exFc : List Nat := [0,2,4,6,8]
+/-- rank 0 needs 2 (on-node) and 5 (off-node); rank 1 needs 1 (on-node) and 4 (off-node);
+    rank 2 needs 0,1 (off-node); rank 3 needs 1 (off-node) and 4 (on-node) -/
+def exOff : List (List Nat) := [[2,5],[1,4],[0,1],[1,4]]
+
+/-- `L`: 1→0 `[2]`, 0→1 `[1]`, 2→3 `[4]`, with the positions in the final buffers -/
+def exL : List SubPkg :=
+  [ { send := [(1,[1])], recv := [(1,1)], recvIdx := [0] },
+    { send := [(0,[0])], recv := [(0,1)], recvIdx := [0] },
+    { send := [(3,[0])], recv := [],      recvIdx := [] },
+    { send := [],        recv := [(2,1)], recvIdx := [1] } ]
+/-- `S`: the owners 0 and 2 hand what the other node needs (`{0,1}` resp. `{4,5}`, each index once)
+    to the ranks 1 and 3 that talk to the other node -/
+def exS : List SubPkg :=
+  [ { send := [(1,[0,1])] }, { recv := [(0,2)] }, { send := [(3,[0,1])] }, { recv := [(2,2)] } ]
+/-- `G`: 1→2 and 3→0 across the nodes -/
+def exG : List SubPkg :=
+  [ { recv := [(3,2)] }, { send := [(2,[0,1])] }, { recv := [(1,2)] }, { send := [(0,[0,1])] } ]
+/-- `R`: 0 keeps `5` and gives `4` to 1; 2 keeps `0,1` and gives `1` to 3 -/
+def exR : List SubPkg :=
+  [ { send := [(0,[1]),(1,[0])],   recv := [(0,1)], recvIdx := [1] },
+    { send := [],                  recv := [(0,1)], recvIdx := [1] },
+    { send := [(2,[0,1]),(3,[1])], recv := [(2,2)], recvIdx := [0,1] },
+    { send := [],                  recv := [(2,1)], recvIdx := [0] } ]
+/-- the three-step package -/
+def exT : TapPkg :=
+  { np := 4, hasS := true, L := exL, S := exS, G := exG, R := exR, recvSize := [2,2,2,2] }
+
+example : FcOk exFc 4 := ⟨rfl, rfl, by decide⟩
+example : ids exFc 4 = [[0,1],[2,3],[4,5],[6,7]] := by decide
+example : subConsistent 4 exL = true ∧ subConsistent 4 exS = true ∧ subConsistent 4 exG = true ∧
+    subConsistent 4 exR = true := by decide
+
+/-- the three stages on the identity payload -/
+example : subExchangeAll 0 4 exS (ids exFc 4) = [[],[0,1],[],[4,5]] := by decide
+example : subExchangeAll 0 4 exG [[],[0,1],[],[4,5]] = [[4,5],[],[0,1],[]] := by decide
+example : (List.range 4).map (subExchange 0 exR [[4,5],[],[0,1],[]]) = [[5],[4],[0,1],[1]] := by decide
+example : (List.range 4).map (subExchange 0 exL (ids exFc 4)) = [[2],[1],[],[4]] := by decide
+example : (List.range 4).map (tapForward 0 exT (ids exFc 4)) = exOff.map (List.map some) := by decide
+
+/-- **the certificate holds** -/
+theorem exT_certified : certificate exFc exOff exT = true := by decide
+example : routesShifted exFc exOff exT = true := by decide
+
+/-- hence (by `certificate_sound`, not by evaluation) every payload is delivered -/
+example (v : Nat → α) : tapForward (v 0) exT ((ids exFc 4).map (List.map v)) 3 = [some (v 1), some (v 4)] :=
+  certificate_sound exT_certified 3 (by decide) v
+
+/-- a concrete payload: node-aware = standard = specification -/
+example : (List.range 4).map (tapForward 10 exT [[10,11],[12,13],[14,15],[16,17]])
+    = ((List.range 4).map (exchange 10 exFc exOff [[10,11],[12,13],[14,15],[16,17]])).map (List.map some) := by
+  decide
+example : (List.range 4).map (exchange 10 exFc exOff [[10,11],[12,13],[14,15],[16,17]])
+    = [[12,15],[11,14],[10,11],[11,14]] := by decide
+
+/-- a deliberately broken package: rank 0 swaps the two indices of its redistribution messages
+    (keeps `4`, gives `5` to rank 1). Still consistent, but the certificate fails -/
+def exRbad : List SubPkg :=
+  [ { send := [(0,[0]),(1,[1])],   recv := [(0,1)], recvIdx := [1] },
+    { send := [],                  recv := [(0,1)], recvIdx := [1] },
+    { send := [(2,[0,1]),(3,[1])], recv := [(2,2)], recvIdx := [0,1] },
+    { send := [],                  recv := [(2,1)], recvIdx := [0] } ]
+def exTbad : TapPkg := { exT with R := exRbad }
+
+example : subConsistent 4 exRbad = true := by decide
+example : certificate exFc exOff exTbad = false := by decide
+example : (List.range 4).map (tapForward 0 exTbad (ids exFc 4))
+    = [[some 2, some 4],[some 1, some 5],[some 0, some 1],[some 1, some 4]] := by decide
+
+/-- a wrong position in the final buffer (rank 3 of `L` writes slot 0 instead of 1): slot 1 is never
+    written, the certificate fails -/
+def exTbadIdx : TapPkg :=
+  { exT with L := exL.set 3 { send := [], recv := [(2,1)], recvIdx := [0] } }
+example : certificate exFc exOff exTbadIdx = false := by decide
+example : tapForward 0 exTbadIdx (ids exFc 4) 3 = [some 4, none] := by decide
+
+/-- an inconsistent sub-package (rank 1 announces 3 entries from 0, which sends 2) -/
+example : subConsistent 4 (exS.set 1 { recv := [(0,3)] }) = false := by decide
+/-- a message nobody receives -/
+example : subConsistent 4 (exG.set 2 {}) = false := by decide
+
+/-- the two-step variant (`hasS = false`): the owners 0 and 2 send across the nodes themselves -/
+def exG2 : List SubPkg :=
+  [ { send := [(2,[0,1])], recv := [(2,2)] }, {}, { send := [(0,[0,1])], recv := [(0,2)] }, {} ]
+def exT2 : TapPkg :=
+  { np := 4, hasS := false, L := exL, S := [], G := exG2, R := exR, recvSize := [2,2,2,2] }
+example : certificate exFc exOff exT2 = true := by decide
+example : routesShifted exFc exOff exT2 = true := by decide
+
+/-- why section 9: 2 ranks with one index each, rank 1 needs index 0, but rank 0's send message
+    reads position 7 of its one-entry vector. On the identity payload with default 0 the
+    out-of-range read is indistinguishable from index 0: `certificate` accepts, the shifted check
+    does not, and a real payload is not delivered -/
+def exTalias : TapPkg :=
+  { np := 2, hasS := false,
+    L := [ { send := [(1,[7])] }, { recv := [(0,1)], recvIdx := [0] } ],
+    S := [], G := [{},{}], R := [{},{}], recvSize := [0,1] }
+example : certificate [0,1,2] [[],[0]] exTalias = true := by decide
+example : routesShifted [0,1,2] [[],[0]] exTalias = false := by decide
+example : tapForward 99 exTalias [[10],[11]] 1 = [some 99] := by decide
+
+end Examples
 
 end Raptor.C04
+
+/- OPEN (not proved): none — targets 1-8 are proved in full generality.
+
+   Remark on target 6 (arbitrary `x`): `tap_eq_standard_general` is stated with the default
+   `valOf d fc x 0` (the value `x` holds at global index 0) on the node-aware side, because
+   `certificate` is evaluated with default 0 = global index 0 and cannot distinguish an out-of-range
+   send index from a request for index 0 (`exTalias`). The statement with an arbitrary default on the
+   node-aware side is false for `certificate` and true for `routesShifted` (`routesShifted_sound`). -/
